@@ -37,6 +37,12 @@ def const(x) -> R:
 
 def _cmp(kind: str, a: R, b: R) -> R:
     """canonical comparison atoms: a > b == pos(a-b); a >= b == nonneg(a-b); == -> zero(+-(a-b))"""
+    d0 = a - b
+    if d0.is_const():
+        v = d0.const_value()
+        t = {"gt": v > 0, "lt": v < 0, "ge": v >= 0, "le": v <= 0, "eq": v == 0, "ne": v != 0}.get(kind)
+        if t is not None:
+            return R.const(1 if t else 0)
     if kind == "gt":
         return R.atom(Op("pos", (a - b,)))
     if kind == "lt":
@@ -157,6 +163,8 @@ def _collect(d, op, memo):
 def _where(c: R, a: R, b: R) -> R:
     if a.same(b):
         return a
+    if c.is_const():
+        return a if c.const_value() != 0 else b
     sm = c.n.single_monomial()
     if sm and c.d.is_const() and len(sm[0]) == 1 and sm[0][0][1] == 1 and isinstance(sm[0][0][0], Op) and sm[1] == c.d.const_value():
         o = sm[0][0][0]
